@@ -304,7 +304,7 @@ Proof.
     [rewrite (B N) in H by (left; assumption); lra|].
   destruct (Rlt_dec (t_shootingInLTE te (t_vJ te)) 0) as [d|d];
     [rewrite (B N) in H by (right; assumption); lra|].
-  repeat split; try lra.
+  split; [lra|]. split; [lra|]. split; [lra|]. split; [lra|]. split.
   - apply C; lra.
   - apply template_shootingInLTE_def.
 Qed.
